@@ -838,7 +838,13 @@ class Interp:
                 if g is not sub.obj:
                     self.fail('C11', 'get_mismatch', f'get({key!r}) is not '
                               f'the map assigned there')
-                if root[key] is not sub.obj:
+                try:
+                    item = root[key]
+                except Exception as e:
+                    self.fail('C11', 'paths_disagree', f'[{key!r}] raised '
+                              f'{type(e).__name__}: {e}, get({key!r}) '
+                              f'returns the map stored there')
+                if item is not sub.obj:
                     self.fail('C11', 'paths_disagree', f'[{key!r}] is not '
                               f'get({key!r})')
             else:
